@@ -90,6 +90,48 @@ def _announced(c, fn, tuple3):
     return out, ok_tuple
 
 
+def padding_applied(ctx, rule):
+    c = ctx.crate
+    ffn = ctx.fn("convolution::Convolution::forward")
+    fex = mac.extract(c, ffn)
+    pads = [x for x in walk(ffn["body"]) if x.get("k") == "call" and x["callee"] == "tensor::pad3d"]
+    if len(pads) == 1:
+        # the padding must be applied whenever either axis is padded: the call is unconditional, or it is skipped only
+        # when both paddings are zero (`if p0 > 0 || p1 > 0 { pad }`)
+        pcs = e4.path_conditions(c, ffn["body"], pads[0]) or []
+        okc = True
+        descr = []
+        for it in pcs:
+            descr.append(("" if it["pol"] else "!") + short(pretty(it["c"]), 60))
+            if not it["pol"]:
+                okc = False
+                continue
+            axes = set()
+
+            def disj(cn):
+                cn = strip(cn)
+                if cn.get("k") == "bin" and cn["op"] == "Or":
+                    disj(cn["l"])
+                    disj(cn["r"])
+                    return
+                try:
+                    a_ = str(e1.Norm(c, fex.env).norm(cn))
+                except ValueError:
+                    return
+                for ax in ("0", "1"):
+                    if a_ in (e1.cmp_atom("Gt", Rat.atom("self.padding.%s" % ax), 0, integer=True), e1.cmp_atom("Ne", Rat.atom("self.padding.%s" % ax), 0)):
+                        axes.add(ax)
+            disj(it["c"])
+            if axes != {"0", "1"}:
+                okc = False
+        ctx.check(rule, "Convolution:padding-applied-whenever-configured", okc, "padding-skipped-under:" + ";".join(descr)[:100], c.loc(ffn, pads[0]),
+                  "pad3d is unconditional (or skipped only when both paddings are zero)",
+                  "the input is padded only under [%s]: for a configuration with padding on one axis the input is not padded, the "
+                  "output extent and the windows differ from the announced ones" % "; ".join(descr))
+    else:
+        ctx.bad(rule, "Convolution:padding-applied-whenever-configured", "pad3d-calls:%d" % len(pads), c.loc(ffn), "expected one pad3d call in Convolution::forward")
+
+
 def r1(ctx):
     c = ctx.crate
     S = {"self.stride.0": Rat.atom("S0"), "self.stride.1": Rat.atom("S1"), "self.dilation.0": Rat.atom("D0"), "self.dilation.1": Rat.atom("D1"),
@@ -131,6 +173,7 @@ def r1(ctx):
         okp = vr == [IH + 2 * Rat.atom("P0"), IW + 2 * Rat.atom("P1")]
         ctx.check("R08.1", "Convolution:forward-pads-to-in+2p", okp, "padded-extent:" + ",".join(vals), c.loc(ffn, pads[0]), "x = pad3d(x, (ih + 2p0, iw + 2p1))",
                   "forward pads the input to (%s)" % ", ".join(vals))
+    padding_applied(ctx, "R08.1")
     conv_calls = [x for x in walk(ffn["body"]) if x.get("k") == "mcall" and x["callee"] == "convolution::Convolution::convolve"]
     ctx.check("R08.1", "Convolution:convolve-gets-padded-input", len(conv_calls) == 1 and len(pads) == 1 and pretty(strip(conv_calls[0]["args"][0])) == pretty(strip(pads[0]["args"][0])),
               "convolve-input", c.loc(ffn), "convolve(&x, ..) with the padded x")
